@@ -4,14 +4,78 @@ import os
 
 VERIF = os.path.dirname(os.path.dirname(os.path.abspath(__file__)))
 
+TIE = ('The model is hand-written; it is tied to /repo on every run by executing the same generated inputs on the '
+       'implementation (in-process) and on the native Lean driver and comparing every observation; an independent '
+       'spec-level oracle is also evaluated on the implementation.')
+
 CLAIMED = {
-    'C01': ('Lean 4 proof (selection = declarative Fires relation, for all charts/configurations/guard valuations) + '
-            'differential correspondence model/implementation',
-            'Theorems C01.fires_iff / exposure / eventless_preempt about the Lean model of _select_transitions hold for '
-            'every tree-shaped chart, every set of active states, every pending event and every guard valuation; the model '
-            'is tied to /repo by running both on generated charts and histories and comparing fired transitions, guard-call '
-            'logs, consumed events and configurations; the Fires relation is also re-evaluated on the implementation.',
-            '§6 C01'),
+    'C01': ('Lean 4 proof: _select_transitions = declarative Fires relation (all charts, configurations, guard valuations) + differential correspondence',
+            'C01.fires_iff / exposure / eventless_preempt / no_event_only_eventless hold for every tree-shaped chart, every set of '
+            'active states, every pending event and every guard valuation. ' + TIE, '§6 C01'),
+    'C02': ('Lean 4 proof: stability and final-absorbing via the executeOnce refinement theorem; legality checked through legalB (proved sound) in the correspondence — partial',
+            'Proved for every chart/history: after a returned macro step no stabilisation step is pending (stable_after_step), a None step changes '
+            'nothing, an empty configuration of an initialised interpreter stays empty (final_stays_empty); legalB decides the property\'s Legal '
+            'predicate (legalB_sound). PARTIAL: Legal as an inductive invariant of execute_once is not yet a theorem; the tie evaluates legalB on '
+            'model and implementation after every step of every generated run (this is how defect D1 was found). ' + TIE, '§6 C02'),
+    'C03': ('Lean 4 proof: executeOnce_ok refinement (exact effect log = replay of the returned trace, run-to-completion) + correspondence',
+            'For every chart, evaluator and history: the code executed during a call that returns is exactly the replay of the returned micro steps '
+            '(exit code innermost first, action, entry code outermost first, then stabilisation) and configuration/memory are the trace applied to '
+            'the old ones (code_ran_is_replay, configuration_is_trace_applied, run_to_completion, nothing_ran). ' + TIE, '§6 C03'),
+    'C04': ('Lean 4 proof: _sort_transitions error classes characterised (iff) + nothing happens on error (error-origin theorem) + correspondence',
+            'nonDeterminism_iff / conflicting_iff / no_error_iff characterise the outcome of the check for every chart and selected set; '
+            'nothing_happens: when it raises, no code ran and configuration, memory and queues are untouched. ' + TIE, '§6 C04'),
+    'C05': ('Lean 4 proof: queue insertion/selection laws (sortedness invariant, FIFO among equal due times, internal first, never early/late) + correspondence',
+            'insert_keeps_order, insert_position, insert_exactly_once, head_is_due_first, selection_rule, consumption_removes_exactly_one, '
+            'due_event_is_selected: for all queues, times and events. ' + TIE, '§6 C05'),
+    'C06': ('Lean 4 proof: history memory written by exits only, restore step = recorded memory sorted parents-first, via the refinement theorem + correspondence',
+            'restore_step, restored_exactly_parents_first, exit_records_shallow/deep, record_kept(_steps), run_applies_the_steps, idle_keeps_memory: '
+            'for every chart, configuration, memory and micro-step sequence. ' + TIE, '§6 C06'),
+    'C07': ('Lean 4 proof: every order of execution is a sort by a key injective on the elements present (canonical-sort lemma), selection invariant under permutation — partial; permutation/hash-seed correspondence',
+            'selection_order_free (fired set independent of declaration order), processing_order_free, depth_name/revdepth_name/name_order_free, '
+            'exit_list_order_free. PARTIAL: full equivariance of execute_once under chart permutation is not a theorem; the tie runs permuted '
+            'declaration orders and several PYTHONHASHSEEDs against the same model run. ' + TIE, '§6 C07'),
+    'C08': ('Lean 4 proof: contract evaluation points from the exact effect log; failure is the last effect (error-origin theorem) + correspondence',
+            'evaluated_at_documented_points (the cond entries of the log are exactly the documented points interleaved with the code), '
+            'invariants_even_without_step, pre/post/invariant_failure_is_immediate. ' + TIE, '§6 C08'),
+    'C09': ('Lean 4 proof: relational frame (RNC) over all of execute_once: with ignore_contract no condition is evaluated and no ContractError can arise + correspondence',
+            'no_evaluation_when_ignored, no_contract_error_when_ignored, log_differs_only_by_evaluations, for all outcomes of the call. PARTIAL: the '
+            'two-run statement (same run with and without contracts when no condition fails) is checked by the tie, not proved. ' + TIE, '§6 C09'),
+    'C10': ('Lean 4 proof: meta-event stream derived from the exact log; fail-fast via error-origin theorem + correspondence with real property statecharts',
+            'meta_stream / meta_stream_none (documented meta-events in the order things happened), property_failure_is_immediate, '
+            'listeners_see_step_time. ' + TIE, '§6 C10'),
+    'C11': ('Lean 4 proof: import∘export = id on every transition, state and contract (dict level) + correspondence through the real YAML text layer — partial',
+            'transition_roundtrip(_eq), state_roundtrip (all six kinds), contract_roundtrip for elements with stripped non-empty code. PARTIAL: '
+            'the chart-level statement and the YAML text layer (ruamel, schema coercions) are covered by the tie only; open findings K4, K5. ' + TIE, '§6 C11'),
+    'C12': ('Lean 4 proof: accepted ⇒ structurally sound (invariant of add_state/add_transition/validate over the import fold) + fault-injection correspondence — partial',
+            'accepted_is_sound (unique names, one tree, parents composite and registered first, history under compound, transitions anchored, '
+            'validate), initial_is_direct_child, memory_is_other_sibling, all_registered, schema_violation_is_statechart_error, unknown_key_rejected, '
+            'both_child_kinds_rejected, state_errors_are_statechart_errors. PARTIAL: "never another exception type" for the uncaught accesses of '
+            'import_from_dict after schema validation is checked by the tie on every injected fault, not proved. ' + TIE, '§6 C12'),
+    'C13': ('Lean 4 proof: time frame relation over execute_once (time = sampled clock value throughout, carried by step started / MacroStep / queue) + correspondence',
+            'time_is_the_sampled_value, macrostep_time, step_started_carries_it, queue_keeps_time for all outcomes. ' + TIE, '§6 C13'),
+    'C14': ('Lean 4 proof over an ordered field (Mathlib): SimulatedClock time is monotone, exact, frozen when stopped + correspondence over rationals',
+            'monotone, step_never_backwards, reject, assign_exact, stopped_still, rate, stop_freezes for every op sequence; the tie drives '
+            'SimulatedClock with a scripted time source and compares exact rationals. Wall-clock reading itself is outside the model.', '§6 C14'),
+    'C15': ('Lean 4 proof: recording-world frame relation (each listener, each meta-event, once, in order, all outcomes); bind forwards exactly event sent + correspondence',
+            'announced_are_the_sent_events, deliveries_once_in_order, detached_gets_nothing, sent_is_queued_internally, bind_forwards_to_callable/'
+            'interpreter, forwarded_payload. ' + TIE, '§6 C15'),
+    'C16': ('Lean 4 proof: every failed edit returns the chart unchanged (atomicity), effects of successful edits, transitions stay anchored + correspondence on edit scripts',
+            'add/remove/rename/move/rotate *_atomic, *_effect, transitions_stay_anchored_*. PARTIAL: remove_state atomicity for known states and '
+            'tree invariants under move are checked by the tie. ' + TIE, '§6 C16'),
+    'C17': ('Lean 4 proof: rename substitutes exactly the transition ends, keeps internal transitions internal, is atomic + guest/copy correspondence',
+            'rename_substitutes_transition_ends, rename_keeps_internal, rename_to_itself, rename_atomic. PARTIAL: behavioural equivariance of the '
+            'renamed chart is checked by the tie (lock-step runs), not proved. ' + TIE, '§6 C17'),
+    'C18': ('Lean 4 proof: the interpreter is a value — runs compose at every boundary, an unobserved interpreter touches nothing else; snapshot identity decided by correspondence — partial',
+            'run_composes, unobserved_step_is_local, unobserved_run_is_local (frame relation over execute_once). PARTIAL by nature: that pickle/deepcopy '
+            'preserve the abstraction function is a fact about the implementation only; the tie replaces the interpreter by its pickled/deep-copied '
+            'copy at (thorough: every) macro-step boundary and compares it, its untouched twin and the model at every later observation. ' + TIE, '§6 C18'),
+    'C19': ('Lean 4 proof: BDD step verdict ⇔ asserted fact over the monitored trace; block structure of when/then/given + correspondence through real behave runs',
+            'verdict_iff_fact, then_before_when, then_only_closes_block, when_extends_or_starts_block, given_is_unmonitored, fact_entered, '
+            'fact_fired_final, first_failure_skips. ' + TIE, '§6 C19'),
+    'C20': ('Lean 4 proof: runner state machine invariants over all schedules (every executed step reported once, hooks once, pause bounds, stop progresses, events once in order) + scheduled-thread correspondence',
+            'reported_plus_inflight_is_executed, every_step_reported_once, one_step_per_cycle, hooks_once, pause_bounds_cycles, stop_always_progresses, '
+            'nothing_after_done, events_exactly_once_in_order for every interleaving of the modelled runner/client actions. PARTIAL: real thread '
+            'scheduling and sleep timing cannot be exhibited by the model; the tie drives AsyncRunner through a deterministic schedule. Open finding K2. ' + TIE, '§6 C20'),
 }
 
 PENDING_REASON = 'check not built yet in this round (planned: Lean model + theorem + correspondence, see DESIGN.md §6)'
